@@ -362,6 +362,7 @@ pub fn run_conc(case: &ConcCase, rep: &mut RunReport) -> Result<(), Violation> {
     simcore::logprobe::begin();
     let store = SimStore::new(sim.clone(), InMemory::new());
     let knobs = &case.knobs;
+    store.set_response_delay(simcore::store::seeded_response_delay(case.seed));
     let mut world = World::boot(&store, knobs).map_err(|e| violation!("conc.boot-failed", "creation failed: {e:?}"))?;
     let vocab = world.vocab.clone();
     // sequential prefix
